@@ -39,4 +39,34 @@ def check(chk, fb, rid, fns, minimum):
                     f.name, nm, i_ + 1, cal["name"], other, cal["name"], nm, want + 1, ct[i_]), witness={"input": "any call with %s != %s" % (nm, other)})
             else:
                 chk.proved(rid, f.key, construct, f.loc(c), "same-named parameters are forwarded to their own positions")
+    # a defaulted parameter left to its default by a caller that has a parameter of the same name and type, while a sibling
+    # caller of the same callee forwards its own: the two callers contradict each other on whether the option is passed on
+    sites = {}
+    for f in sorted(fns, key=lambda x: x.key):
+        pn = {p_["name"]: p_.get("ty") for p_ in f.params}
+        for c in f.calls():
+            cal = c["callee"]
+            if not cal.get("inrepo") or not cal.get("key"):
+                continue
+            cp = cal.get("pnames") or []
+            ct = cal.get("ptypes") or []
+            for i_, a in enumerate(f.args(c)):
+                if a is None or i_ >= len(cp) or i_ >= len(ct) or cp[i_] not in pn or pn[cp[i_]] != ct[i_]:
+                    continue
+                a_ = strip(a) if a["k"] != "CXXDefaultArgExpr" else a
+                if a["k"] == "CXXDefaultArgExpr":
+                    sites.setdefault((cal["key"], i_), []).append((f, c, "omit"))
+                elif a_ is not None and a_["k"] == "DeclRefExpr" and a_["decl"]["kind"] == "param" and a_["decl"]["name"] == cp[i_]:
+                    sites.setdefault((cal["key"], i_), []).append((f, c, "fwd"))
+    for (ck, i_), lst in sorted(sites.items()):
+        fw = [x for x in lst if x[2] == "fwd" ]
+        for f, c, how in lst:
+            if how != "omit":
+                continue
+            cal = c["callee"]
+            nm = cal["pnames"][i_]
+            construct = "forward-default:%s->%s:%s" % (f.name, cal["name"], nm)
+            if fw and fw[0][0].key != f.key:
+                chk.refuted(rid, f.key, construct, f.loc(c), "%s has its own parameter '%s' but calls %s without it, so %s's default is used whatever the caller asked for; %s forwards its '%s' to the same callee (%s)" % (
+                    f.name, nm, cal["name"], cal["name"], fw[0][0].name, nm, fw[0][0].loc(fw[0][1])), witness={"input": "a call of %s with '%s' different from the default of %s" % (f.name, nm, cal["name"])})
     chk.floor(rid, "forwarding calls with same-named parameters", n, minimum)
